@@ -10,7 +10,8 @@ import random
 from runner import Case
 from props import _store_util as U
 
-THEOREMS = ["C02.setParent_rej_id", "C02.setChildren_rej_id", "C02.prefix_rollback_not_identity"]
+THEOREMS = ["C02.setParent_rej_id", "C02.setChildren_rej_id", "C02.setChildren_rej_id_unchecked", "C02.step_rej_id",
+            "C02.prefix_rollback_not_identity"]
 PLUGINS = {}      # cls value -> dict(gen=, impl=, oracle=, shrink=, nontrivial=)
 
 
@@ -100,6 +101,8 @@ def _store_oracle(case):
         after = U.snap(nodes)
         if o == "rej" and op[0] != "E" and after != before:
             msgs.append(f"op {i} {U.fmt_op(op)} raised but changed the store: {U.show_snap(before)} -> {U.show_snap(after)}")
+            break
+        if not U.healthy(nodes):
             break
         before = after
     return msgs
